@@ -54,7 +54,9 @@ pub fn server_fingerprint(seed: u64, k: u64) -> String {
     let n = if k % 3 == 2 { 3 } else { 2 };
     let np = 1 + (k % 3) as usize;
     let policies = (0..np).map(|c| crate::checks::srv::gen_policy(&mut rng, n, c as u64 + 1, &[0, 1, 2, 3, 4])).collect();
-    let spec = crate::checks::srv::base_spec(&mut rng, n, policies, vec![2; n], k % 3 != 0);
+    let mut spec = crate::checks::srv::base_spec(&mut rng, n, policies, vec![2; n], k % 3 != 0);
+    // every other server run goes through the real HTTP server nodes
+    spec.http = (k / 4) % 2 == 1;
     let run = crate::server::run(&spec);
     let mut dh = 0;
     for d in &run.decisions {
